@@ -578,6 +578,30 @@ def oracle(cfg, obs):
     return bad
 
 
+def oracle_nostats(cfg, obs):
+    """stats=None: no boundary snapshots; what remains observable of the statement"""
+    bad = []
+    kind, ngen, p = cfg["kind"], cfg["ngen"], tuple(cfg["evp"])
+    want_gens = list(range(ngen)) if kind == "gu" else list(range(ngen + 1))
+    if obs["log_gen"] != want_gens:
+        bad.append("logbook gens %r, expected %r" % (obs["log_gen"], want_gens))
+    ncalls = len([e for e in obs["events"] if e[0] == "evaluate"])
+    if sum(obs["log_nevals"]) != ncalls:
+        bad.append("sum of nevals %r but evaluate was called %d times" % (obs["log_nevals"], ncalls))
+    for (u, g, f) in obs["final"]:
+        if f is None or f != ev_pure(p, g):
+            bad.append("final individual %d carries fitness %r but evaluate(genotype)=%r" % (u, f, ev_pure(p, g)))
+    if kind != "gu":
+        if not obs["ret_is_caller"] or obs["final"] != obs["caller_final"]:
+            bad.append("returned population is not the caller's list object")
+        want = len(obs["pop0"]) if kind in ("simple", "harm") or ngen == 0 else cfg["mu"]
+        if len(obs["final"]) != want:
+            bad.append("final population size %d, prescribed %d" % (len(obs["final"]), want))
+    elif not obs["gu_ret_is_last"]:
+        bad.append("returned population is not the last generated one")
+    return bad
+
+
 # --------------------------------------------------------------------------------------------
 # Coq terms
 # --------------------------------------------------------------------------------------------
@@ -823,7 +847,7 @@ def main(run):
         if "raised" in obs:
             run.oracle_violation("the loop raised " + obs["raised"], pub, observed=obs["raised"])
             return
-        bad = oracle(cfg, obs)
+        bad = oracle(cfg, obs) if cfg.get("stats", True) else oracle_nostats(cfg, obs)
         if cfg.get("dup_invalid"):
             # known finding: the same unevaluated object listed twice in the caller's population is
             # evaluated once per occurrence; anything else going wrong on this input is a real violation
@@ -892,7 +916,7 @@ def main(run):
                     do(fix_guards(cfg))
 
     # ---- seeded random ----
-    nrand = run.scale(120, 1500)
+    nrand = run.scale(120, 1000)
     for _ in range(nrand):
         do(gen_simple(rng))
         do(gen_mu(rng, "plus"))
@@ -904,6 +928,12 @@ def main(run):
     for _ in range(run.scale(15, 150)):
         cfg = rng.choice([gen_simple, lambda r: gen_mu(r, "plus"), lambda r: gen_mu(r, "comma"), gen_gu, gen_harm])(rng)
         cfg["map"] = "chunked"
+        do(cfg, corr=False)
+    # without a Statistics object (oracle only, on what is still observable)
+    for _ in range(run.scale(15, 150)):
+        cfg = rng.choice([gen_simple, lambda r: gen_mu(r, "plus"), lambda r: gen_mu(r, "comma"), gen_gu, gen_harm])(rng)
+        cfg["stats"] = False
+        cfg["hof"] = rng.random() < 0.5
         do(cfg, corr=False)
     # without a hall of fame (oracle only: the model always carries one)
     for _ in range(run.scale(10, 100)):
